@@ -183,6 +183,122 @@ func main() {
 					return true
 				})
 			}
+			if mode == "dropelse" {
+				// if c { …; return } else { B }  ->  if c { …; return }; B
+				// (the else block must not declare names or labels: they would move to the outer scope)
+				terminates := func(b *ast.BlockStmt) bool {
+					if len(b.List) == 0 {
+						return false
+					}
+					switch x := b.List[len(b.List)-1].(type) {
+					case *ast.ReturnStmt:
+						return true
+					case *ast.BranchStmt:
+						return x.Tok == token.CONTINUE || x.Tok == token.BREAK || x.Tok == token.GOTO
+					}
+					return false
+				}
+				declares := func(b *ast.BlockStmt) bool {
+					for _, st := range b.List {
+						switch x := st.(type) {
+						case *ast.AssignStmt:
+							if x.Tok == token.DEFINE {
+								return true
+							}
+						case *ast.DeclStmt, *ast.LabeledStmt:
+							return true
+						}
+					}
+					return false
+				}
+				var rewrite func(list []ast.Stmt) []ast.Stmt
+				rewrite = func(list []ast.Stmt) []ast.Stmt {
+					var out []ast.Stmt
+					for _, st := range list {
+						ifs, ok := st.(*ast.IfStmt)
+						if ok {
+							if els, isBlock := ifs.Else.(*ast.BlockStmt); isBlock && ifs.Init == nil && terminates(ifs.Body) && !declares(els) {
+								ifs.Else = nil
+								out = append(out, ifs)
+								out = append(out, rewrite(els.List)...)
+								n++
+								continue
+							}
+						}
+						out = append(out, st)
+					}
+					return out
+				}
+				ast.Inspect(f, func(nd ast.Node) bool {
+					switch x := nd.(type) {
+					case *ast.BlockStmt:
+						x.List = rewrite(x.List)
+					case *ast.CaseClause:
+						x.Body = rewrite(x.Body)
+					case *ast.CommClause:
+						x.Body = rewrite(x.Body)
+					}
+					return true
+				})
+			}
+			if mode == "addelse" {
+				// if c { …; return }; rest…  ->  if c { …; return } else { rest… }
+				// (only in function bodies' statement lists where rest has no labels, and the
+				// enclosing list is not the top level of a function with results — a missing
+				// final return would not compile)
+				terminates := func(b *ast.BlockStmt) bool {
+					if len(b.List) == 0 {
+						return false
+					}
+					_, ok := b.List[len(b.List)-1].(*ast.ReturnStmt)
+					return ok
+				}
+				hasLabel := func(list []ast.Stmt) bool {
+					found := false
+					for _, st := range list {
+						ast.Inspect(st, func(m ast.Node) bool {
+							switch m.(type) {
+							case *ast.LabeledStmt:
+								found = true
+							case *ast.FuncLit:
+								return false
+							}
+							return true
+						})
+					}
+					return found
+				}
+				var rewrite func(list []ast.Stmt, top bool) []ast.Stmt
+				rewrite = func(list []ast.Stmt, top bool) []ast.Stmt {
+					for i, st := range list {
+						ifs, ok := st.(*ast.IfStmt)
+						if !ok || ifs.Else != nil || !terminates(ifs.Body) || i+1 >= len(list) || top {
+							continue
+						}
+						rest := list[i+1:]
+						if hasLabel(rest) {
+							continue
+						}
+						ifs.Else = &ast.BlockStmt{List: append([]ast.Stmt{}, rest...)}
+						n++
+						return list[:i+1]
+					}
+					return list
+				}
+				ast.Inspect(f, func(nd ast.Node) bool {
+					switch x := nd.(type) {
+					case *ast.FuncDecl:
+						if x.Body != nil && (x.Type.Results == nil || len(x.Type.Results.List) == 0) {
+							x.Body.List = rewrite(x.Body.List, false)
+						}
+					case *ast.ForStmt:
+						x.Body.List = rewrite(x.Body.List, false)
+					case *ast.RangeStmt:
+						x.Body.List = rewrite(x.Body.List, false)
+					}
+					return true
+				})
+			}
 			if mode == "nestif" {
 				// if a && b { X }  ->  if a { if b { X } }   (no else; behaviour preserving)
 				ast.Inspect(f, func(nd ast.Node) bool {
